@@ -221,8 +221,8 @@ CHECKS["C13"] = dict(
         dict(name="harness_c13_logic", quick={}, thorough={}),
     ],
     anchors=["SymEngine::LambdaDoubleVisitor<double>::init", "SymEngine::LambdaDoubleVisitor<double>::bvisit", "SymEngine::LambdaRealDoubleVisitor"],
-    bounds="three outputs (e1, e1+e2 sharing a subterm, e1*(e1+1)) with e1 a tree of depth <= 1 (thorough: 2) and e2 of depth 0 (thorough: <= 1) over {x, y, 2, -1/2, 3} and elementary functions; cse on/off; re-initialisation with swapped inputs and another cse setting; for all real input vectors (x, y); relationals, And/Or, Piecewise, max/min, sign, abs for all real x, y",
-    outside=["rounding error", "Contains, floor/ceiling", "LambdaComplexDoubleVisitor"],
+    bounds="three outputs (e1, e1+e2 sharing a subterm, e1*(e1+1)) with e1 a tree of depth <= 1 (thorough: 2) and e2 of depth 0 (thorough: <= 1) over {x, y, 2, -1/2, 3} and elementary functions; cse on/off; re-initialisation with swapped inputs and another cse setting; for all real input vectors (x, y); relationals, And/Or, Piecewise, max/min, sign, abs, Contains(x, Interval) with all open/closed flag combinations (alone and as a Piecewise condition) for all real x, y",
+    outside=["rounding error", "floor/ceiling", "LambdaComplexDoubleVisitor"],
     assumptions=["real abstraction D6 of floating-point code", "oracle D2 (vlib/vrecipe.h)"],
 )
 
@@ -292,7 +292,7 @@ CHECKS["C39"] = dict(
         dict(name="harness_c39_coeff", quick={"B": 2}, thorough={"B": 6}),
     ],
     anchors=["SymEngine::free_symbols", "SymEngine::has_symbol", "SymEngine::function_symbols", "SymEngine::coeff"],
-    bounds="operator trees of depth <= 1 (2) over {x, y, p, 2, -1/2, 0, 1, a symbolic integer |c|<=1 (2)} (slots that become 0 or 1 and cancelling terms make symbols disappear): free_symbols/has_symbol against an independent walk of the result tree, f(e), function_symbols; coeff(p,x,n) for p = a x^2 + b y x + c + y with symbolic a,b,c reconstructs p",
+    bounds="operator trees of depth <= 1 (2) over {x, y, p, 2, -1/2, 0, 1, a symbolic integer |c|<=1 (2)} (slots that become 0 or 1 and cancelling terms make symbols disappear): free_symbols/has_symbol against an independent walk of the result tree, f(e), function_symbols; coeff(p,x,n) for p = a x^2 + b y x + c + y with symbolic a,b,c reconstructs p; single-term products k*x**n*y with a symbolic integer or half-integer k and n <= 3",
     outside=["Derivative/Subs/sets/Piecewise binding rules", "atoms()"],
 )
 
@@ -407,9 +407,9 @@ CHECKS["C35"] = dict(
 
 CHECKS["C34"] = dict(
     src="C34.cpp", level="model_checking",
-    entries=[dict(name="harness_c34", quick={}, thorough={})],
+    entries=[dict(name="harness_c34", quick={}, thorough={}), dict(name="harness_c34_real", quick={}, thorough={})],
     anchors=["SymEngine::is_zero", "SymEngine::is_positive", "SymEngine::is_negative", "SymEngine::is_nonnegative", "SymEngine::is_integer", "SymEngine::is_real", "SymEngine::Assumptions"],
-    bounds="12 expression shapes over x, y (sums, products, squares, cubes, abs, affine forms with a constant -2..2) under every combination of {real, integer} x {no sign information, > 0, < 0, >= 0, <= 0, != 0} per symbol; every definite answer of is_zero, is_nonzero, is_positive, is_negative, is_nonnegative, is_nonpositive, is_real, is_integer is checked against the value at ALL real (or integer) x, y satisfying the assumptions",
+    bounds="12 expression shapes over x, y (sums, products, squares, cubes, abs, affine forms with a constant -2..2) under every combination of {real, integer} x {no sign information, > 0, < 0, >= 0, <= 0, != 0} per symbol; every definite answer of is_zero, is_nonzero, is_positive, is_negative, is_nonnegative, is_nonpositive, is_real, is_integer is checked against the value at ALL real (or integer) x, y satisfying the assumptions; is_real of sqrt(u), u**(3/2), sqrt(u) + y for 9 radicands u (x, x+c, x*y, x**2, |x|, x**2+y**2, -x**2, c*x, |x|+c) against the sign of u",
     outside=["is_rational/is_irrational/is_algebraic/is_transcendental/is_finite/is_even/is_odd/is_polynomial", "rational-valued symbols", "transcendental functions"],
     assumptions=["oracle D2/D4 (vlib/veval.h) over the reals and integers"],
 )
